@@ -3180,7 +3180,14 @@ impl Translator {
                 StmtKind::Let(_, _, expr) => {
                     self.collect_captures_expr(expr, locals, mono);
                 }
-                StmtKind::Assign(_, _, expr) => {
+                StmtKind::Assign(target, _, expr) => {
+                    // `s.f = e` and `a[i] = e` read the struct / array (and the index)
+                    if matches!(
+                        &*target.kind,
+                        ExprKind::MemberAccess(..) | ExprKind::IndexAccess(..)
+                    ) {
+                        self.collect_captures_expr(target, locals, mono);
+                    }
                     self.collect_captures_expr(expr, locals, mono);
                 }
                 StmtKind::Continue | StmtKind::Break => {}
